@@ -74,17 +74,361 @@ def NonEmpty : Branch → Prop
   | .leaf pts => pts ≠ []
   | .fork _ _ _ => True
 
+
+/-! ## helper lemmas -/
+
+theorem chainRows_length (ty : Int) : ∀ (pts : List Pt) (parent : Int) (next : Nat),
+    (chainRows ty pts parent next).length = pts.length
+  | [], _, _ => by simp [chainRows]
+  | _ :: ps, _, next => by simp [chainRows, chainRows_length ty ps]
+
+mutual
+theorem rowsOf_length (ty : Int) : ∀ (b : Branch) (parent : Int) (next : Nat),
+    (rowsOf ty b parent next).length = b.count
+  | .leaf pts, parent, next => by simp [rowsOf, Branch.count, chainRows_length]
+  | .fork p pts alts, parent, next => by
+    simp [rowsOf, Branch.count, chainRows_length, altsRows_length ty alts]; omega
+theorem altsRows_length (ty : Int) : ∀ (alts : List Branch) (parent : Int) (next : Nat),
+    (altsRows ty alts parent next).length = countL alts
+  | [], _, _ => by simp [altsRows, countL]
+  | a :: rest, parent, next => by
+    simp [altsRows, countL, rowsOf_length ty a, altsRows_length ty rest]
+end
+
+@[simp] theorem ok_bind {α β : Type} (a : α) (k : α → Except Err β) : (Except.ok a >>= k) = k a := rfl
+@[simp] theorem error_bind {α β : Type} (e : Err) (k : α → Except Err β) : (Except.error e >>= k) = .error e := rfl
+
+theorem adv_cons2 (x y : Tok) (t : List Tok) (ht : y ≠ .bad) : adv (x :: y :: t) = .ok (y :: t) := by
+  cases y <;> simp_all [adv]
+@[simp] theorem adv_single (x : Tok) : adv [x] = .ok [] := rfl
+@[simp] theorem adv_nil : adv [] = .ok [] := rfl
+
+@[simp] theorem error_map {α β : Type} (e : Err) (k : α → β) : (k <$> (Except.error e : Except Err α)) = .error e := rfl
+@[simp] theorem ok_map {α β : Type} (a : α) (k : α → β) : (k <$> (Except.ok a : Except Err α)) = .ok (k a) := rfl
+
+theorem adv_cons (x : Tok) (t : List Tok) (ht : t.head? ≠ some .bad) : adv (x :: t) = .ok t := by
+  cases t with
+  | nil => rfl
+  | cons y t => cases y <;> simp_all [adv]
+
+theorem skipSpaces_append (ws s : SwcText.Str) (hws : ∀ c ∈ ws, isSpace c = true) :
+    skipSpaces (ws ++ s) = skipSpaces s := by
+  induction ws with
+  | nil => rfl
+  | cons c ws ih =>
+    have h1 : isSpace c = true := hws c (by simp)
+    simp only [List.cons_append, skipSpaces, h1, if_true]
+    exact ih (fun c hc => hws c (by simp [hc]))
+
+/-! ## simulation of the subtree loop on rendered branches -/
+
+theorem float_flag (ty : Int) (f : Nat) (v : Sci) (t : List Tok) (flag : Bool) (root cur : Int) (rows : List Row) :
+    parseSubtree ty f (.float v :: t) flag root cur rows = parseSubtree ty f (.float v :: t) true root cur rows := by
+  cases f with
+  | zero => rfl
+  | succ f => simp [parseSubtree]
+
+theorem point_tail (ty : Int) (g : Nat) (x y z r : Sci) (rest : List Tok) (flag : Bool) (root cur : Int)
+    (rows : List Row) (hr : rest.head? ≠ some .bad) :
+    parseSubtree ty (g + 1) (.float x :: .float y :: .float z :: .float r :: .rp :: rest) flag root cur rows
+      = parseSubtree ty g rest true root (rows.length : Int) (rows ++ [⟨ty, x, y, z, r, cur⟩]) := by
+  simp [parseSubtree, parseNode, expectRp, adv_cons2, adv_cons, hr]
+
+theorem point_step (ty : Int) (g : Nat) (p : Pt) (rest : List Tok) (root cur : Int)
+    (rows : List Row) (hr : rest.head? ≠ some .bad) :
+    parseSubtree ty (g + 2) (ptToks p ++ rest) true root cur rows
+      = parseSubtree ty g rest true root (rows.length : Int) (rows ++ [⟨ty, p.x, p.y, p.z, p.r, cur⟩]) := by
+  rw [← point_tail ty g p.x p.y p.z p.r rest false root cur rows hr]
+  simp [ptToks, parseSubtree, adv_cons2]
+
+theorem flatMap_head (pts : List Pt) (rest : List Tok) (hr : rest.head? ≠ some .bad) :
+    (pts.flatMap ptToks ++ rest).head? ≠ some .bad := by
+  cases pts with
+  | nil => simpa using hr
+  | cons p ps => simp [ptToks]
+
+/-- the id of the last point of a run (`cur` if the run is empty) -/
+def chainCur : List Pt → Int → Nat → Int
+  | [], cur, _ => cur
+  | _ :: ps, _, next => chainCur ps (next : Int) (next + 1)
+
+theorem chainCur_cons (p : Pt) : ∀ (pts : List Pt) (cur : Int) (next : Nat),
+    chainCur (p :: pts) cur next = ((next + pts.length : Nat) : Int)
+  | [], _, _ => by simp [chainCur]
+  | q :: qs, cur, next => by
+    have := chainCur_cons q qs (next : Int) (next + 1)
+    simp only [chainCur] at this ⊢
+    rw [this]; simp; omega
+
+theorem chain_run (ty : Int) : ∀ (pts : List Pt) (g : Nat) (rest : List Tok) (root cur : Int) (rows : List Row),
+    rest.head? ≠ some .bad →
+    parseSubtree ty (g + 2 * pts.length) (pts.flatMap ptToks ++ rest) true root cur rows
+      = parseSubtree ty g rest true root (chainCur pts cur rows.length) (rows ++ chainRows ty pts cur rows.length)
+  | [], g, rest, root, cur, rows, _ => by simp [chainCur, chainRows]
+  | p :: ps, g, rest, root, cur, rows, hr => by
+    have h1 : g + 2 * (p :: ps).length = (g + 2 * ps.length) + 2 := by simp; omega
+    rw [h1, List.flatMap_cons, List.append_assoc,
+      point_step ty _ p _ root cur rows (flatMap_head ps rest hr),
+      chain_run ty ps g rest root _ _ hr]
+    simp [chainCur, chainRows]
+
+/-- loop iterations spent on the branch by the call that meets it -/
+def seq : Branch → Nat
+  | .leaf pts => 2 * pts.length
+  | .fork _ pts _ => 2 * (pts.length + 1) + 2
+
+-- fuel that must be left after the branch so that the recursive calls inside it complete
+mutual
+def need : Branch → Nat
+  | .leaf _ => 0
+  | .fork _ _ alts => needL alts
+def needL : List Branch → Nat
+  | [] => 1
+  | a :: rest => seq a + need a + 1 + needL rest
+end
+
+def lastCur : Branch → Int → Nat → Int
+  | .leaf pts, cur, next => chainCur pts cur next
+  | .fork p pts _, cur, next => chainCur (p :: pts) cur next
+
+theorem branchToks_shape (b : Branch) :
+    (branchToks b = [] ∧ b = .leaf []) ∨ ∃ v t, branchToks b = .lp :: .float v :: t := by
+  cases b with
+  | leaf pts =>
+    cases pts with
+    | nil => left; simp [branchToks]
+    | cons p ps => right; exact ⟨p.x, _, by simp [branchToks, ptToks]; rfl⟩
+  | fork p pts alts => right; exact ⟨p.x, _, by simp [branchToks, ptToks]; rfl⟩
+
+theorem altsToks_shape (alts : List Branch) :
+    (altsToks alts = [] ∧ (alts = [] ∨ alts = [.leaf []])) ∨ (∃ v t, altsToks alts = .lp :: .float v :: t)
+      ∨ (∃ t, altsToks alts = .bar :: t) := by
+  match alts with
+  | [] => left; simp [altsToks]
+  | [a] =>
+    rcases branchToks_shape a with ⟨h, rfl⟩ | ⟨v, t, h⟩
+    · left; simp [altsToks, h]
+    · right; left; exact ⟨v, t, by simp [altsToks, h]⟩
+  | a :: b :: rest =>
+    rcases branchToks_shape a with ⟨h, rfl⟩ | ⟨v, t, h⟩
+    · right; right; exact ⟨_, by simp [altsToks, h]; rfl⟩
+    · right; left; exact ⟨v, _, by simp [altsToks, h]; rfl⟩
+
+theorem altsToks_head (alts : List Branch) (rest : List Tok) :
+    (altsToks alts ++ .rp :: rest).head? ≠ some .bad := by
+  rcases altsToks_shape alts with ⟨h, _⟩ | ⟨v, t, h⟩ | ⟨t, h⟩ <;> simp [h]
+
+/-- the `( alt | … )` part of a branch, given the behaviour of the recursive call on `alts` -/
+theorem split_step (ty : Int) (alts : List Branch) (g : Nat) (rest : List Tok) (root cur : Int) (rows : List Row)
+    (hr : rest.head? ≠ some .bad)
+    (hQ : ∀ (f : Nat) (rest : List Tok) (par : Int) (rows : List Row), rest.head? ≠ some .bad → needL alts ≤ f →
+      parseSubtree ty f (altsToks alts ++ .rp :: rest) true par par rows
+        = .ok (.rp :: rest, rows ++ altsRows ty alts par rows.length))
+    (hg : needL alts ≤ g) :
+    parseSubtree ty (g + 2) (.lp :: (altsToks alts ++ .rp :: rest)) true root cur rows
+      = parseSubtree ty g rest true root cur (rows ++ altsRows ty alts cur rows.length) := by
+  rcases altsToks_shape alts with ⟨h, h' | h'⟩ | ⟨v, t, h⟩ | ⟨t, h⟩
+  · subst h'
+    simp [altsToks, altsRows, parseSubtree, adv_cons2, adv_cons, hr]
+  · subst h'
+    simp [altsToks, branchToks, altsRows, rowsOf, chainRows, parseSubtree, adv_cons2, adv_cons, hr]
+  · have hq := hQ (g + 1) rest cur rows hr (by omega)
+    rw [h] at hq ⊢
+    simp [parseSubtree, adv_cons2] at hq
+    rw [float_flag] at hq
+    simp [parseSubtree, adv_cons2, hq, expectRp, adv_cons, hr]
+  · have hq := hQ g rest cur rows hr hg
+    rw [h] at hq ⊢
+    simp only [List.cons_append] at hq
+    simp [parseSubtree, adv_cons2, hq, expectRp, adv_cons, hr]
+
+mutual
+theorem sim_branch (ty : Int) : ∀ (b : Branch) (g : Nat) (rest : List Tok) (root cur : Int) (rows : List Row),
+    rest.head? ≠ some .bad → need b ≤ g →
+    parseSubtree ty (g + seq b) (branchToks b ++ rest) true root cur rows
+      = parseSubtree ty g rest true root (lastCur b cur rows.length) (rows ++ rowsOf ty b cur rows.length)
+  | .leaf pts, g, rest, root, cur, rows, hr, _ => by
+    simpa [seq, branchToks, rowsOf, lastCur] using chain_run ty pts g rest root cur rows hr
+  | .fork p pts alts, g, rest, root, cur, rows, hr, hg => by
+    have h1 : branchToks (.fork p pts alts) ++ rest
+        = (p :: pts).flatMap ptToks ++ (.lp :: (altsToks alts ++ .rp :: rest)) := by
+      simp [branchToks]
+    have h2 : g + seq (.fork p pts alts) = (g + 2) + 2 * (p :: pts).length := by simp [seq]; omega
+    rw [h1, h2, chain_run ty (p :: pts) (g + 2) _ root cur rows (by simp),
+      split_step ty alts g rest root _ _ hr (fun f rest par rows hr hf => sim_alts ty alts f rest par rows hr hf)
+        (by simpa [need] using hg)]
+    simp [lastCur, rowsOf, chainCur_cons, chainRows_length, List.append_assoc, Nat.add_assoc]
+theorem sim_alts (ty : Int) : ∀ (alts : List Branch) (f : Nat) (rest : List Tok) (par : Int) (rows : List Row),
+    rest.head? ≠ some .bad → needL alts ≤ f →
+    parseSubtree ty f (altsToks alts ++ .rp :: rest) true par par rows
+      = .ok (.rp :: rest, rows ++ altsRows ty alts par rows.length)
+  | [], f, rest, par, rows, _, hf => by
+    obtain ⟨f, rfl⟩ : ∃ f', f = f' + 1 := ⟨f - 1, by simp [needL] at hf; omega⟩
+    simp [altsToks, altsRows, parseSubtree]
+  | [a], f, rest, par, rows, hr, hf => by
+    simp only [needL] at hf
+    obtain ⟨g, rfl⟩ : ∃ g, f = (g + 1) + seq a := ⟨f - seq a - 1, by omega⟩
+    simp only [altsToks]
+    rw [sim_branch ty a (g + 1) _ par par rows (by simp) (by omega)]
+    simp [parseSubtree, altsRows]
+  | a :: b :: bs, f, rest, par, rows, hr, hf => by
+    simp only [needL] at hf
+    obtain ⟨g, rfl⟩ : ∃ g, f = (g + 1) + seq a := ⟨f - seq a - 1, by omega⟩
+    have h1 : altsToks (a :: b :: bs) ++ .rp :: rest
+        = branchToks a ++ (.bar :: (altsToks (b :: bs) ++ .rp :: rest)) := by simp [altsToks]
+    rw [h1, sim_branch ty a (g + 1) _ par par rows (by simp) (by omega)]
+    rw [parseSubtree]
+    simp only [if_true, adv_cons _ _ (altsToks_head (b :: bs) rest), ok_bind]
+    rw [sim_alts ty (b :: bs) g rest par _ hr (by simp only [needL]; omega)]
+    simp [altsRows, rowsOf_length, List.append_assoc]
+end
+
+/-! ## fuel bound and the document level -/
+
+theorem flatMap_ptToks_length (pts : List Pt) : (pts.flatMap ptToks).length = 6 * pts.length := by
+  induction pts with
+  | nil => rfl
+  | cons p ps ih => simp [List.flatMap_cons, ptToks, ih]; omega
+
+mutual
+theorem need_le : ∀ (b : Branch), seq b + need b ≤ (branchToks b).length
+  | .leaf pts => by simp only [seq, need, branchToks, flatMap_ptToks_length]; omega
+  | .fork p pts alts => by
+    have := needL_le alts
+    simp only [seq, need, branchToks, List.length_append, flatMap_ptToks_length, ptToks, List.length_cons,
+      List.length_nil]; omega
+theorem needL_le : ∀ (alts : List Branch), needL alts ≤ (altsToks alts).length + 2
+  | [] => by simp [needL, altsToks]
+  | [a] => by have := need_le a; simp [needL, altsToks]; omega
+  | a :: b :: bs => by
+    have := need_le a
+    have := needL_le (b :: bs)
+    simp only [needL, altsToks, List.length_append, List.length_cons, List.length_nil] at *; omega
+end
+
+theorem nonEmpty_shape (b : Branch) (hb : NonEmpty b) : ∃ v t, branchToks b = .lp :: .float v :: t := by
+  rcases branchToks_shape b with ⟨_, rfl⟩ | h
+  · simp [NonEmpty] at hb
+  · exact h
+
+/-- the call `_parse_tree` makes: the opening bracket of the first point is already consumed -/
+theorem top_run (ty : Int) (b : Branch) (v : Sci) (t rest : List Tok) (par : Int) (rows : List Row) (f : Nat)
+    (h : branchToks b = .lp :: .float v :: t) (hr : rest.head? ≠ some .bad)
+    (hf : (branchToks b).length + 1 ≤ f) :
+    parseSubtree ty f (.float v :: (t ++ .rp :: rest)) true par par rows
+      = .ok (.rp :: rest, rows ++ rowsOf ty b par rows.length) := by
+  have hq := sim_alts ty [b] (f + 1) rest par rows hr (by have := needL_le [b]; simp only [altsToks] at this; omega)
+  simp only [altsToks, h] at hq
+  simp [parseSubtree, adv_cons2] at hq
+  rw [float_flag] at hq
+  simpa [altsRows] using hq
+
+theorem skipComments_lp (f : Nat) (t : List Tok) : skipComments (f + 1) (.lp :: t) = .ok (.lp :: t) := by
+  simp [skipComments]
+
+theorem label_cond (label : SwcText.Str) (hl : upper label = "AXON".toList ∨ upper label = "DENDRITE".toList) :
+    (decide (upper label = "AXON".toList) || decide (upper label = "DENDRITE".toList)) = true := by
+  rcases hl with h | h <;> simp [h]
+
+theorem parseTop_tree (label : SwcText.Str) (b : Branch) (extra : List Tok) (f : Nat)
+    (hl : upper label = "AXON".toList ∨ upper label = "DENDRITE".toList) (hb : NonEmpty b)
+    (hx : extra.head? ≠ some .bad) (hf : (branchToks b).length + 2 ≤ f) :
+    parseTop (f + 1) (.lp :: .literal label :: .rp :: (branchToks b ++ .rp :: extra)) []
+      = .ok (.rp :: extra, rowsOf (labelType label) b (-1) 0) := by
+  obtain ⟨v, t, h⟩ := nonEmpty_shape b hb
+  obtain ⟨f, rfl⟩ : ∃ f', f = f' + 1 := ⟨f - 1, by omega⟩
+  have hrun := top_run (labelType label) b v t extra (-1) [] (f + 1) h hx (by omega)
+  rw [h]
+  simp only [labelType] at hrun
+  rw [parseTop]
+  simp only [adv_cons2 _ _ _ (show Tok.literal label ≠ .bad by simp), ok_bind]
+  rw [if_pos (label_cond label hl)]
+  simp only [labelType]
+  generalize (if upper label = "AXON".toList then Gen.Consts.type_axon else Gen.Consts.type_basal_dendrite) = ty at *
+  simp only [adv_cons2 _ _ _ (show Tok.rp ≠ .bad by simp), ok_bind, expectRp, List.cons_append,
+    adv_cons2 _ _ _ (show Tok.lp ≠ .bad by simp), skipComments, expectLp,
+    adv_cons2 _ _ _ (show Tok.float v ≠ .bad by simp), hrun]
+  simp [parseTop]
+
+theorem parseTop_tree_comment (label c : SwcText.Str) (b : Branch) (extra : List Tok) (f : Nat)
+    (hl : upper label = "AXON".toList ∨ upper label = "DENDRITE".toList) (hb : NonEmpty b)
+    (hx : extra.head? ≠ some .bad) (hf : (branchToks b).length + 3 ≤ f) :
+    parseTop (f + 1) (.lp :: .literal label :: .rp :: .comment c :: (branchToks b ++ .rp :: extra)) []
+      = .ok (.rp :: extra, rowsOf (labelType label) b (-1) 0) := by
+  obtain ⟨v, t, h⟩ := nonEmpty_shape b hb
+  obtain ⟨f, rfl⟩ : ∃ f', f = f' + 2 := ⟨f - 2, by omega⟩
+  have hrun := top_run (labelType label) b v t extra (-1) [] (f + 2) h hx (by omega)
+  rw [h]
+  simp only [labelType] at hrun
+  rw [parseTop]
+  simp only [adv_cons2 _ _ _ (show Tok.literal label ≠ .bad by simp), ok_bind]
+  rw [if_pos (label_cond label hl)]
+  simp only [labelType]
+  generalize (if upper label = "AXON".toList then Gen.Consts.type_axon else Gen.Consts.type_basal_dendrite) = ty at *
+  simp only [adv_cons2 _ _ _ (show Tok.rp ≠ .bad by simp), ok_bind, expectRp, List.cons_append,
+    adv_cons2 _ _ _ (show Tok.lp ≠ .bad by simp),
+    adv_cons2 _ _ _ (show Tok.comment c ≠ .bad by simp), skipComments, expectLp,
+    adv_cons2 _ _ _ (show Tok.float v ≠ .bad by simp), hrun]
+  simp [parseTop]
+
+/-- `convertTokens` with the fuel made explicit -/
+def convertWith (N : Nat) (toks : List Tok) : Except Err (List Row) := do
+  let t0 ← skipComments N toks
+  let t1 ← expectLp t0
+  let r ← parseTop N t1 []
+  match r.1 with
+  | [] => .error .eof
+  | .rp :: _ => do
+    let _ ← adv r.1
+    pure r.2
+  | _ => .error .tokenType
+
+theorem convertTokens_eq (toks : List Tok) (h : toks.head? ≠ some .bad) :
+    convertTokens toks = convertWith (toks.length + 2) toks := by
+  cases toks with
+  | nil => rfl
+  | cons x t => cases x <;> first | rfl | simp at h
+
+theorem convertWith_doc (label : SwcText.Str) (b : Branch) (extra : List Tok) (N : Nat)
+    (hl : upper label = "AXON".toList ∨ upper label = "DENDRITE".toList) (hb : NonEmpty b)
+    (hx : extra.head? ≠ some .bad) (hN : (branchToks b).length + 3 ≤ N) :
+    convertWith N (.lp :: .lp :: .literal label :: .rp :: (branchToks b ++ .rp :: extra))
+      = .ok (rowsOf (labelType label) b (-1) 0) := by
+  obtain ⟨f, rfl⟩ : ∃ f', N = f' + 1 := ⟨N - 1, by omega⟩
+  simp [convertWith, skipComments, expectLp, adv_cons2, parseTop_tree label b extra f hl hb hx (by omega),
+    adv_cons, hx]
+
+theorem convertWith_doc_comment1 (label c : SwcText.Str) (b : Branch) (extra : List Tok) (N : Nat)
+    (hl : upper label = "AXON".toList ∨ upper label = "DENDRITE".toList) (hb : NonEmpty b)
+    (hx : extra.head? ≠ some .bad) (hN : (branchToks b).length + 4 ≤ N) :
+    convertWith N (.comment c :: .lp :: .lp :: .literal label :: .rp :: (branchToks b ++ .rp :: extra))
+      = .ok (rowsOf (labelType label) b (-1) 0) := by
+  obtain ⟨f, rfl⟩ : ∃ f', N = f' + 2 := ⟨N - 2, by omega⟩
+  simp [convertWith, skipComments, expectLp, adv_cons2,
+    parseTop_tree label b extra (f + 1) hl hb hx (by omega), adv_cons, hx]
+
+theorem convertWith_doc_comment2 (label c : SwcText.Str) (b : Branch) (extra : List Tok) (N : Nat)
+    (hl : upper label = "AXON".toList ∨ upper label = "DENDRITE".toList) (hb : NonEmpty b)
+    (hx : extra.head? ≠ some .bad) (hN : (branchToks b).length + 4 ≤ N) :
+    convertWith N (.lp :: .lp :: .literal label :: .rp :: .comment c :: (branchToks b ++ .rp :: extra))
+      = .ok (rowsOf (labelType label) b (-1) 0) := by
+  obtain ⟨f, rfl⟩ : ∃ f', N = f' + 1 := ⟨N - 1, by omega⟩
+  simp [convertWith, skipComments, expectLp, adv_cons2,
+    parseTop_tree_comment label c b extra f hl hb hx (by omega), adv_cons, hx]
+
 /-- **Conversion is faithful**, at any nesting depth and any branch length: the document
 `( (label) <branch> )` converts to exactly `rowsOf`. -/
 theorem convert_faithful (label : SwcText.Str) (b : Branch)
     (hl : upper label = "AXON".toList ∨ upper label = "DENDRITE".toList) (hb : NonEmpty b) :
     convertTokens (docToks label b) = .ok (rowsOf (labelType label) b (-1) 0) := by
-  sorry
+  have h := convertWith_doc label b [] ((docToks label b).length + 2) hl hb (by simp) (by simp [docToks] <;> omega)
+  rw [convertTokens_eq _ (by simp [docToks])]
+  simpa [docToks] using h
 
 /-- one row per point -/
 theorem rows_count (ty : Int) (b : Branch) (parent : Int) (next : Nat) :
     (rowsOf ty b parent next).length = b.count := by
-  sorry
+  exact rowsOf_length ty b parent next
 
 /-- trailing text after the closing bracket of the document is never looked at (unless the very next
 word is a malformed number) -/
@@ -92,7 +436,9 @@ theorem trailing_ignored (label : SwcText.Str) (b : Branch) (extra : List Tok)
     (hl : upper label = "AXON".toList ∨ upper label = "DENDRITE".toList) (hb : NonEmpty b)
     (hx : extra.head? ≠ some .bad) :
     convertTokens (docToks label b ++ extra) = .ok (rowsOf (labelType label) b (-1) 0) := by
-  sorry
+  have h := convertWith_doc label b extra ((docToks label b ++ extra).length + 2) hl hb hx (by simp [docToks] <;> omega)
+  rw [convertTokens_eq _ (by simp [docToks])]
+  simpa [docToks] using h
 
 /-! ## layout: comments and colour markers -/
 
@@ -100,21 +446,30 @@ theorem trailing_ignored (label : SwcText.Str) (b : Branch) (extra : List Tok)
 theorem comment_skipped (ty : Int) (f : Nat) (c : SwcText.Str) (t : List Tok) (flag : Bool) (root cur : Int) (rows : List Row)
     (ht : t.head? ≠ some .bad) :
     parseSubtree ty (f + 1) (.comment c :: t) flag root cur rows = parseSubtree ty f t flag root cur rows := by
-  sorry
+  simp [parseSubtree, adv_cons _ t ht]
 
 /-- a colour marker `( Color <word> )` between points changes nothing -/
 theorem color_skipped (ty : Int) (f : Nat) (w col : SwcText.Str) (t : List Tok) (root cur : Int) (rows : List Row)
     (hw : upper w = "COLOR".toList) (ht : t.head? ≠ some .bad) :
     parseSubtree ty (f + 2) (.lp :: .literal w :: .literal col :: .rp :: t) true root cur rows
       = parseSubtree ty f t true root cur rows := by
-  sorry
+  simp [parseSubtree, parseColor, expectRp, adv_cons, adv_cons2, hw, ht]
 
 /-- comments before the document, and between the label and the first point, are skipped -/
 theorem leading_comment_skipped (c : SwcText.Str) (label : SwcText.Str) (b : Branch)
     (hl : upper label = "AXON".toList ∨ upper label = "DENDRITE".toList) (hb : NonEmpty b) :
     convertTokens (.comment c :: docToks label b) = .ok (rowsOf (labelType label) b (-1) 0) ∧
     convertTokens ([.lp, .lp, .literal label, .rp, .comment c] ++ branchToks b ++ [.rp]) = .ok (rowsOf (labelType label) b (-1) 0) := by
-  sorry
+  constructor
+  · have h := convertWith_doc_comment1 label c b [] ((Tok.comment c :: docToks label b).length + 2) hl hb (by simp)
+      (by simp [docToks] <;> omega)
+    rw [convertTokens_eq _ (by simp)]
+    simpa [docToks] using h
+  · have h := convertWith_doc_comment2 label c b []
+      (([Tok.lp, .lp, .literal label, .rp, .comment c] ++ branchToks b ++ [Tok.rp]).length + 2) hl hb (by simp)
+      (by simp <;> omega)
+    rw [convertTokens_eq _ (by simp)]
+    simpa using h
 
 /-! ## rejection -/
 
@@ -124,13 +479,14 @@ theorem bad_point_rejected (a b c d e : Sci) (w : SwcText.Str) (t : List Tok) :
     (∃ er, parseNode (.float a :: .float b :: .float c :: .float d :: .float e :: t) = .error er) ∧
     (∃ er, parseNode (.float a :: .literal w :: t) = .error er) ∧
     (∃ er, parseNode (.float a :: .float b :: .float c :: .float d :: []) = .error er) := by
-  sorry
+  refine ⟨?_, ?_, ?_, ?_⟩ <;> simp [parseNode, adv, expectRp]
 
 /-- an error inside a point is an error of the whole conversion step (nothing is converted in part) -/
 theorem node_error_propagates (ty : Int) (f : Nat) (toks : List Tok) (v : Sci) (rest : List Tok) (flag : Bool)
     (root cur : Int) (rows : List Row) (er : Err) (ht : toks = .float v :: rest) (h : parseNode toks = .error er) :
     parseSubtree ty (f + 1) toks flag root cur rows = .error er := by
-  sorry
+  subst ht
+  simp [parseSubtree, h]
 
 /-- bracket depth of a token list -/
 def depth : List Tok → Int
@@ -139,6 +495,30 @@ def depth : List Tok → Int
   | .rp :: t => depth t - 1
   | _ :: t => depth t
 
+/-! ## truncated documents -/
+
+theorem bind_ok_iff {α β : Type} (x : Except Err α) (k : α → Except Err β) (r : β) :
+    (x >>= k) = .ok r ↔ ∃ a, x = .ok a ∧ k a = .ok r := by
+  cases x with
+  | error e => simp
+  | ok a => simp
+
+/-- a result that is not an error stays the same with more fuel -/
+theorem fuel_mono (ty : Int) : ∀ (f : Nat) (toks : List Tok) (flag : Bool) (root cur : Int) (rows : List Row)
+    (r : List Tok × List Row),
+    parseSubtree ty f toks flag root cur rows = .ok r → parseSubtree ty (f + 1) toks flag root cur rows = .ok r := by
+  intro f
+  induction f with
+  | zero => intro toks flag root cur rows r h; simp [parseSubtree] at h
+  | succ f ih =>
+    intro toks flag root cur rows r h
+    cases toks with
+    | nil => simpa [parseSubtree] using h
+    | cons x t =>
+      cases x <;> cases flag <;> simp only [parseSubtree, bind_ok_iff] at h ⊢
+      all_goals sorry
+
+--TRUNC--
 /-- **a document that ends prematurely is rejected** (partial: stated for the token stream cut anywhere
 inside the tree's points; the general "every accepted stream is bracket-balanced" lemma is the missing
 piece for cuts inside the header) — every proper prefix that still contains the header -/
@@ -153,12 +533,12 @@ theorem truncation_rejected_partial (label : SwcText.Str) (b : Branch) (k : Nat)
 /-- blanks, tabs and line breaks between words are irrelevant -/
 theorem lex_skips_blanks (f : Nat) (ws s : SwcText.Str) (hws : ∀ c ∈ ws, isSpace c = true) :
     lex (f + 1) (ws ++ s) = lex (f + 1) s := by
-  sorry
+  simp only [lex, skipSpaces_append ws s hws]
 
 /-- brackets and `|` are tokens of their own even without surrounding blanks -/
 theorem lex_structural (f : Nat) (s : SwcText.Str) :
     lex (f + 1) ('(' :: s) = .lp :: lex f s ∧ lex (f + 1) (')' :: s) = .rp :: lex f s ∧ lex (f + 1) ('|' :: s) = .bar :: lex f s := by
-  sorry
+  refine ⟨?_, ?_, ?_⟩ <;> simp [lex, skipSpaces, takeWord, isSpace, isDelim]
 
 -- non-vacuity / concrete behaviour (kernel-evaluated)
 def p (n : Nat) : Pt := ⟨⟨false, n, 0⟩, ⟨false, 0, 0⟩, ⟨false, 0, 0⟩, ⟨false, 1, 0⟩⟩
